@@ -13,7 +13,9 @@ RULE = (
     "atom thinning; mini-structures of 2-4 neighbouring residues with independent small rigid perturbations (which "
     "sweep centroid distance around 6 A, normal angle around 35/145 deg and offset angle around 45 deg); STEERED "
     "two-residue placements in which one of the three decision quantities is put by construction at 6 A / 35 deg / 45 deg "
-    "+- {1e-5 .. 1} (the other two clearly satisfied; parallel and antiparallel normals; either residue moved). Oracle: for "
+    "+- {1e-5 .. 1} (the other two clearly satisfied; parallel and antiparallel normals; either residue moved); CROWDED "
+    "placements (2-16 slightly perturbed copies of a run of 1-3 bases as separate chains of one model, so that a base has "
+    "up to ~40 base centroids within 6 A). Oracle: for "
     "ALL residue pairs (O(n^2), no KD-tree) stacking <=> centroid distance <= 6 and normals within 35 deg of "
     "(anti)parallel and the later->earlier centroid vector within 45 deg of one of the normals (directed reading, see "
     "DESIGN C04), three-valued at 1e-6; checked both ways (reported => possibly true, certainly true => reported), "
@@ -67,6 +69,7 @@ def evaluate(s3, model=None):
     have = [r for r in rr if cents[r.idx] is not None]
     if have:
         C = np.array([cents[r.idx] for r in have])
+        info["max_neighbours"] = max(int(np.sum(np.linalg.norm(C - C[a], axis=1) <= geomref.ST_MAX)) - 1 for a in range(len(have))) if len(have) <= 200 else -1
         for a in range(len(have)):
             d = np.linalg.norm(C[a + 1:] - C[a], axis=1)
             for off in np.nonzero(d <= geomref.ST_MAX + 0.5)[0]:
@@ -169,6 +172,8 @@ def plan(tier, seed):
     files = corpus.SMALL[:6]
     n, ex = (8, 150) if tier == "quick" else (16, 6000)
     specs += [{"kind": "steered", "files": files, "examples": ex, "seed": seed * 1000 + 400 + k} for k in range(n)]
+    n, ex = (4, 40) if tier == "quick" else (8, 1500)
+    specs += [{"kind": "crowd", "files": files, "examples": ex, "seed": seed * 1000 + 500 + k} for k in range(n)]
     return specs
 
 
@@ -188,6 +193,14 @@ def run_shard(spec) -> ShardResult:
     elif spec["kind"] == "steered":
         run_hypothesis(PROP_ID, gen3d.st_steered_stack(files), oracle, seed=spec["seed"], max_examples=spec["examples"],
                        result=res, to_json=c03.to_json, classify=classify_steered)
+    elif spec["kind"] == "crowd":
+        def cl(c):
+            nt, labs = classify(c)
+            m = (c.get("_info4") or {}).get("max_neighbours", 0)
+            return nt, list(labs) + [f"max-centroids-within-6A={'>8' if m > 8 else '5-8' if m > 4 else '<=4'}"]
+
+        run_hypothesis(PROP_ID, gen3d.st_crowd(files), oracle, seed=spec["seed"], max_examples=spec["examples"],
+                       result=res, to_json=c03.to_json, classify=cl)
     elif spec["kind"] == "mini":
         run_hypothesis(PROP_ID, gen3d.st_mini(files), oracle, seed=spec["seed"], max_examples=spec["examples"],
                        result=res, to_json=c03.to_json, classify=classify)
